@@ -265,7 +265,7 @@ Proof.
   { rewrite Eu at 1. cbn [length Nat.eqb orb]. apply Nat.ltb_ge. exact Ul. }
   assert (str_isnum (dec_of_Z udp) = true) as ->.
   { unfold str_isnum. rewrite Ud, Eu. reflexivity. }
-  cbn [negb]. rewrite (digits_value_dec udp Hu). unfold u16. rewrite (Z.mod_small udp) by (unfold port_ok in Hu; lia).
+  cbn [negb]. rewrite (digits_value_dec udp Hu). destruct (Z.ltb_spec 65535 udp) as [?|_]; [unfold port_ok in Hu; lia|].
   (* the query *)
   change (ch_qm =? ch_qm) with true. cbv iota.
   destruct (s_tcpport_eq ++ dec_of_Z tcp) as [|q0 qr] eqn:Eq; [discriminate|]. rewrite <- Eq.
@@ -279,7 +279,7 @@ Proof.
   assert (str_isnum (dec_of_Z tcp) = true) as ->.
   { unfold str_isnum. rewrite Td, Etc. reflexivity. }
   destruct (Nat.ltb_spec 5 (length (dec_of_Z tcp))) as [?|_]; [lia|]. cbn [negb orb]. rewrite Ta.
-  rewrite (Z.mod_small tcp) by (unfold port_ok in Ht; lia).
+  destruct (Z.ltb_spec 65535 tcp) as [?|_]; [unfold port_ok in Ht; lia|].
   destruct Hi as [_ Hil]. destruct i as [|i0 ir]; [reflexivity|]. rewrite firstn_short by exact Hil. reflexivity.
 Qed.
 
